@@ -914,6 +914,18 @@ func (x *Exec) evalCall(env *Env, e *SExpr) Val {
 		return mathVal(FalseT)
 	case "signalled", "held", "waited", "broadcast":
 		return x.monitorPred(env, name, e.Args)
+	case "apply":
+		// apply(f, args...): the result of calling the pure function value f
+		fv := arg(0)
+		sig, ok := fv.T.Underlying().(*types.Signature)
+		if !ok || len(fv.L) != 1 {
+			x.evalFail("apply: %s is not a function value", e.Args[0].String())
+		}
+		var av []Val
+		for i := 1; i < len(e.Args); i++ {
+			av = append(av, arg(i))
+		}
+		return x.fnApply(fv, sig, av)
 	case "fresh":
 		v := arg(0)
 		r := v.L[0]
